@@ -42,6 +42,52 @@ from octoprint_excluderegion.RectangularRegion import RectangularRegion  # noqa
 from octoprint_excluderegion.CircularRegion import CircularRegion  # noqa
 from octoprint_excluderegion.StreamProcessor import StreamProcessor  # noqa
 
+class FrozenClock(object):
+    """Stand-in for the `time` module inside the plugin's modules: the wall clock does not advance while a
+    history is explored.  The properties have no time component; on the pinned tree time.time() only feeds log
+    text.  A frozen clock keeps every execution deterministic even if a change stores timestamps or elapsed
+    times in the filter's state (they would otherwise differ from run to run and defeat de-duplication and
+    the replay-twice determinism rule).  Everything except the clock readers is passed through."""
+    T0 = 1790000000.0
+
+    def __init__(self, real):
+        self._real = real
+
+    def time(self):
+        return self.T0
+
+    def monotonic(self):
+        return 1000.0
+
+    def perf_counter(self):
+        return 1000.0
+
+    def time_ns(self):
+        return int(self.T0 * 1e9)
+
+    def __getattr__(self, name):
+        return getattr(self._real, name)
+
+
+def freeze_clock():
+    import time as _time
+    frozen = FrozenClock(_time)
+    for name, mod in list(sys.modules.items()):
+        if not name.startswith("octoprint_excluderegion") or mod is None:
+            continue
+        for attr, val in list(vars(mod).items()):
+            if val is _time:
+                setattr(mod, attr, frozen)
+            elif val is _time.time:
+                setattr(mod, attr, frozen.time)
+            elif val is _time.monotonic:
+                setattr(mod, attr, frozen.monotonic)
+            elif val is _time.perf_counter:
+                setattr(mod, attr, frozen.perf_counter)
+
+
+freeze_clock()
+
 LOGGER_NAME = "octoprint.plugins.excluderegion"
 LOG = logging.getLogger(LOGGER_NAME)
 LOG.addHandler(logging.NullHandler())
